@@ -1,0 +1,11 @@
+//go:build verif
+
+package kprapi
+
+import "net/http"
+
+// Verification hooks (build tag verif).
+
+func (srv *Server) VerifRouter() http.Handler { return srv.setupRouter() }
+
+func (srv *Server) VerifShutdownSig() chan struct{} { return srv.shutdownSig }
